@@ -7,7 +7,7 @@ def cchar(b):
     return "char(%d)" % (b if b < 128 else b - 256)
 
 
-def tu_source(g, gid=None, dflt=(), limits=None):
+def tu_source(g, gid=None, dflt=(), limits=None, ctx=()):
     """g: gram.Grammar.  Terms are typed char terms with the observing functor, every rule gets RuleF{index}."""
     gid = gid or g.name
     o = ['#include "rt.hpp"', 'using namespace ctpg;', 'using vh::Node;', 'namespace G {',
@@ -25,7 +25,7 @@ def tu_source(g, gid=None, dflt=(), limits=None):
         r = 'n%d(%s)' % (ntid[l], args)
         if prec != 0:
             r = '(%s[%d])' % (r, prec)
-        rl.append('        %s' % r if ri in dflt else '        %s >= vh::RuleF{%d}' % (r, ri))
+        rl.append('        %s' % r if ri in dflt else ('        %s >>= vh::RuleFC{%d}' % (r, ri) if ri in ctx else '        %s >= vh::RuleF{%d}' % (r, ri)))
     if limits:
         o.append('struct Lim { static const size_t state_count_cap = %d; static const size_t max_sit_count_per_state_cap = %d; };' % tuple(limits))
     o.append('auto make() { return new parser(n%d,' % ntid[g.root])
@@ -37,7 +37,7 @@ def tu_source(g, gid=None, dflt=(), limits=None):
     return '\n'.join(o) + '\n'
 
 
-def tla_json(g, gid=None, dflt=()):
+def tla_json(g, gid=None, dflt=(), ctx=()):
     """Same JSON shape as gram.HostGrammar.tla_json, for an exact (generated TU) grammar."""
     gid = gid or g.name
     ntid = {n: i for i, n in enumerate(g.nts)}
@@ -58,7 +58,7 @@ def tla_json(g, gid=None, dflt=()):
         'id': gid, 'nnt': nnt, 'nt': nt, 'root': ntid[g.root], 'rules': rules, 'used': [1] * len(rules),
         'tprec': [g.tprec.get(t, 0) for t in g.ts], 'tassoc': [g.tassoc.get(t, 0) for t in g.ts],
         'tbytes': [ord(t) for t in g.ts], 'tnames': tn, 'ntnames': names_nt, 'ruletext': texts,
-        'lex': 'chars', 'lexterms': [], 'dflt': sorted(dflt), 'deflimits': True, 'lexobs': False, 'obsT': True, 'obsC': True, 'alpha': [ord(t) for t in g.ts],
+        'lex': 'chars', 'lexterms': [], 'dflt': sorted(dflt), 'ctxr': sorted(ctx), 'deflimits': True, 'lexobs': False, 'obsT': True, 'obsC': True, 'alpha': [ord(t) for t in g.ts],
         'uterms': list(range(nt)),
     }
 
@@ -111,7 +111,7 @@ def lex_tla_json(gid, terms):
     return {'id': gid, 'nnt': 1, 'nt': nt, 'root': 0, 'rules': rules, 'used': [1] * len(rules),
             'tprec': [0] * nt, 'tassoc': [0] * nt, 'tbytes': [0] * nt, 'tnames': tn, 'ntnames': ['N0', '##'], 'ruletext': texts,
             'lex': 'ref', 'lexterms': [{'kind': t[0], 'data': ([t[1]] if t[0] == 'C' else list(t[1]))} for t in terms],
-            'dflt': [], 'deflimits': True, 'lexobs': False, 'obsT': True, 'obsC': True, 'alpha': [], 'uterms': list(range(nt))}
+            'dflt': [], 'ctxr': [], 'deflimits': True, 'lexobs': False, 'obsT': True, 'obsC': True, 'alpha': [], 'uterms': list(range(nt))}
 
 
 # ---------------------------------------------------------------- custom lexer (C18)
